@@ -67,6 +67,18 @@ def constructed(rng):
             for c in (0, 1, -1, -12345, M, -M):
                 for fl in FLAGNAMES:
                     out.append(req(fl, rng.choice((None, 3, 25, 60)), p, c, s))
+    # seams of the digit split: coefficient = Q * 10^k + r with Q at floor(T / 10^k) +- 2 (T = maxima of the primitive
+    # types), r = 0 / 1 / all nines / half; printed as is (split at the scale) and rounded (split after rounding)
+    for s in range(1, 19):
+        for c in G.split_values(rng, s, 2):
+            for sgn in (1, -1):
+                out.append(req(rng.choice(FLAGNAMES), rng.choice((None, 45)), rng.choice((None, s, s + 3)), sgn * c, s))
+        for k in range(1, s):
+            # scale s, precision k: the rounded coefficient is split at k digits
+            for c in G.split_values(rng, k, 0)[::5]:
+                cc = c * P10[s - k] + rng.choice((0, 1, P10[s - k] // 2, P10[s - k] - 1))
+                if cc <= M:
+                    out.append(req("none", None, k, cc * rng.choice((1, -1)), s))
     # zero values under every flag set, with and without width / precision
     for s in range(0, 19, 3):
         for fl in FLAGNAMES:
